@@ -81,9 +81,9 @@ PROPS = {
         "assumptions": ["hang = no return within 20 s"],
     },
     "C08": {
-        "corr": [("manifests", {"quick": 1500, "thorough": 30000})],
+        "corr": [("manifests", {"quick": 1500, "thorough": 30000}), ("barrier", {"quick": 80, "thorough": 1500})],
         "trusted_base": [
-            "modelled, not verified: YAML decoding of document heads (sigs.k8s.io/yaml; heads are supplied to the model by the harness), Go regexp engine (the separator regexp is re-implemented by hand and tied by correspondence), text/template (literal templates only), sync.WaitGroup semantics (barrier model)",
+            "modelled, not verified: YAML decoding of document heads (sigs.k8s.io/yaml; heads are supplied to the model by the harness), Go regexp engine (the separator regexp is re-implemented by hand and tied by correspondence), text/template (literal templates only), sync.WaitGroup semantics (barrier model; tied to kube.Client.Create by validating observed arrival/completion sequences of held create requests against the model's `accepts`, and by the regenerated shape of the batchPerform loop)",
         ],
         "assumptions": ["strings.ToLower is modelled for ASCII only; cases with non-ASCII annotation values are skipped and counted"],
     },
